@@ -6,6 +6,7 @@ import (
 	"go/constant"
 	"go/token"
 	"go/types"
+	"os"
 	"strings"
 
 	"golang.org/x/tools/go/ssa"
@@ -253,10 +254,14 @@ func appendAccumulator(lp *loop, v ssa.Value) *ssa.Phi {
 	// merges inside the loop body, or nil
 	var hdr func(v ssa.Value, depth int, seen map[ssa.Value]bool) *ssa.Phi
 	hdr = func(v ssa.Value, depth int, seen map[ssa.Value]bool) *ssa.Phi {
+		if p, ok := v.(*ssa.Phi); ok && p.Block() == lp.header {
+			return p
+		}
 		if depth > 16 || seen[v] {
 			return nil
 		}
 		seen[v] = true
+		defer delete(seen, v)
 		switch t := v.(type) {
 		case *ssa.Call:
 			if b, ok := t.Call.Value.(*ssa.Builtin); ok && b.Name() == "append" {
@@ -509,6 +514,11 @@ func (x *Exec) enterLoop(fr *Frame, lp *loop, st *State) {
 		x.note("loop %d of %s has no invariant: loop-modified state is arbitrary after the cut", lp.ordinal, shortFn(fr.fn.String()))
 	}
 	mods := x.loopMods(lp)
+	if os.Getenv("GOVC_VERBOSE") != "" {
+		for n, mi := range mods {
+			fmt.Fprintf(os.Stderr, "loop %d of %s modifies %s whole=%v refs=%d accum=%d\n", lp.ordinal, fr.fn.Name(), n, mi.whole, len(mi.refs), len(mi.accum))
+		}
+	}
 	entryVals := map[*ssa.Phi]Value{}
 	for _, ins := range hdr.Instrs {
 		if phi, ok := ins.(*ssa.Phi); ok {
